@@ -225,6 +225,72 @@ def prob_order2(mk, ikind, kind, dim, mkind):
     return out_items
 
 
+def prob_order2_constrained(mk, solver="newton", n_inner=1):
+    """Constrained leapfrog on a circle (curved manifold), real projection solver in the series domain: one step agrees with
+    the exact constrained flow (Lagrange multiplier from d^2 c/dt^2 = 0) through eps^2; energy error has no eps^0..eps^2 term."""
+    dim = 2
+    sysm, info = sl.make_system(S, M, mk, "constr", dim, mkind="identity", ckind="sphere", hausdorff=True)
+    cm, model = info["constraint"], info["model"]
+    tag = f"constrained/{solver}/inner{n_inner}"
+    a, b, w = mk.real("qa"), mk.real("qb"), mk.real("pw")
+    q = np.array([a, b], dtype=object if mk.symbolic else float)
+    cm.r2 = a * a + b * b  # the start point defines the radius: on the manifold by construction
+    p = np.array([-b * w, a * w], dtype=object if mk.symbolic else float)  # tangent: q.p = 0
+    if mk.symbolic:
+        mk.require((a * a + b * b) > 0)
+        integ = I.ConstrainedLeapfrogIntegrator(sysm, Ser([0, 1]), n_inner_step=n_inner, reverse_check_norm=germ_norm,
+                                                projection_solver=getattr(SO, SOLVERS[solver]),
+                                                projection_solver_kwargs={"norm": germ_norm, "max_iters": 10})
+        try:
+            out = integ.step(_state(series_array(q), series_array(p)))
+        except IntegratorError as e:
+            raise Skip(f"integrator raised {type(e).__name__} in the series domain") from e
+        # exact constrained flow by Picard iteration
+        qs, ps = series_array(q), series_array(p)
+        for _ in range(Ser.N + 1):
+            gU = model.G(list(qs))
+            lam = (ps @ ps - qs @ gU) / (2 * (qs @ qs))
+            fq = ps
+            fp = -(gU + lam * (2 * qs))
+            qs = np.array([Ser([x0]) + Ser.lift(f).integrate() for x0, f in zip(q, fq)], dtype=object)
+            ps = np.array([Ser([x0]) + Ser.lift(f).integrate() for x0, f in zip(p, fp)], dtype=object)
+        items = []
+        for k in range(3):
+            items.append(Item(f"{tag}: position coefficient of eps^{k} equals the exact constrained flow's", coeffs(out.pos, k), coeffs(qs, k)))
+            items.append(Item(f"{tag}: momentum coefficient of eps^{k} equals the exact constrained flow's", coeffs(out.mom, k), coeffs(ps, k)))
+        h0 = Ser.lift(sysm.h(_state(series_array(q), series_array(p))))
+        h1 = Ser.lift(sysm.h(_state(out.pos.copy(), out.mom.copy())))
+        for k in range(3):
+            items.append(Item(f"{tag}: energy error has no eps^{k} term", h1.c[k], h0.c[k]))
+        for k in range(Ser.N + 1):
+            items.append(Item(f"{tag}: constraint holds at order eps^{k}", Ser.lift(cm.c(list(out.pos))[0]).c[k], SV(0)))
+        return items
+    errs = []
+    for eps in (2e-2, 1e-2):
+        integ = I.ConstrainedLeapfrogIntegrator(sysm, eps, n_inner_step=n_inner, projection_solver=getattr(SO, SOLVERS[solver]))
+        out = integ.step(_state(q.copy(), p.copy()))
+        # reference: RK4 on the constrained vector field
+        qq, pp = q.copy(), p.copy()
+        nsub = 2000
+        hh = eps / nsub
+
+        def f(q_, p_):
+            gU = np.asarray(model.G(list(q_)), dtype=float)
+            lam = (p_ @ p_ - q_ @ gU) / (2 * (q_ @ q_))
+            return p_, -(gU + lam * 2 * q_)
+        for _ in range(nsub):
+            k1 = f(qq, pp); k2 = f(qq + hh / 2 * k1[0], pp + hh / 2 * k1[1]); k3 = f(qq + hh / 2 * k2[0], pp + hh / 2 * k2[1]); k4 = f(qq + hh * k3[0], pp + hh * k3[1])
+            qq = qq + hh / 6 * (k1[0] + 2 * k2[0] + 2 * k3[0] + k4[0])
+            pp = pp + hh / 6 * (k1[1] + 2 * k2[1] + 2 * k3[1] + k4[1])
+        errs.append(max(np.max(np.abs(out.pos - qq)), np.max(np.abs(out.mom - pp))))
+    ratio = errs[0] / errs[1] if errs[1] > 0 else float("inf")
+    ok = (errs[0] < 1e-12) or ratio > 5.5
+    labels = [f"{tag}: {nm}" for k in range(3) for nm in (f"position coefficient of eps^{k} equals the exact constrained flow's",
+                                                           f"momentum coefficient of eps^{k} equals the exact constrained flow's",
+                                                           f"energy error has no eps^{k} term")] + [f"{tag}: constraint holds at order eps^{k}" for k in range(Ser.N + 1)]
+    return [Item(lb + f" [observed error ratio {ratio:.2f}]", ok, None, kind="true") for lb in labels]
+
+
 def prob_series_reversible(mk, ikind, kind, dim, mkind, n=1):
     """Implicit integrators with the real fixed-point solver, in the series domain: n steps forward, flip, n steps
     back return to the start through eps^3 (reversible to O(eps^4) for every state and model coefficient)."""
